@@ -24,7 +24,7 @@ ASSUMPTIONS = ['key equality is == on the squared-up key cells (the reference us
 MODES = ['both-empty', 'left-empty', 'right-empty', 'left-ends-first-after-mismatch', 'right-ends-first-after-mismatch',
          'both-end-on-match', 'left-ends-first-after-match', 'right-ends-first-after-match']
 OPS = ['join', 'leftjoin', 'rightjoin', 'outerjoin', 'lookupjoin', 'antijoin']
-REQUIRED = ['mode:' + m for m in MODES] + ['op:' + o for o in OPS] + ['op:crossjoin',
+REQUIRED = ['views-read-twice'] + ['mode:' + m for m in MODES] + ['op:' + o for o in OPS] + ['op:crossjoin',
             'none-key-left+right-empty', 'none-key-right+left-empty', 'ragged-input', 'natural-key', 'lkey!=rkey', 'compound-key', 'presorted', 'presorted-ragged', 'key-by-index', 'key-index-0', 'chunked-sort-of-right-input']
 
 
@@ -242,7 +242,7 @@ def judge(case, ctx):
         if len(right) - 1 > case['buffersize']:
             ctx.seen('chunked-sort-of-right-input')
     fn = getattr(petl, op)
-    got = util.attempt_rows(lambda: fn(a, b, **kw))
+    got = util.attempt_rows_twice(lambda: fn(a, b, **kw))
     if isinstance(got, util.Raised):
         return {'kind': 'exception', 'detail': got.text, 'where': got.where, 'mode': mode, 'expected': [tuple(exp_hdr)] + exp_rows}
     out = []
@@ -269,7 +269,7 @@ def _judge_cross(case, ctx):
         kw['prefix'] = True
     if case['missing'] is not None:
         kw['missing'] = case['missing']
-    got = util.attempt_rows(lambda: petl.crossjoin(*tables, **kw))
+    got = util.attempt_rows_twice(lambda: petl.crossjoin(*tables, **kw))
     if isinstance(got, util.Raised):
         return {'kind': 'exception', 'detail': got.text, 'where': got.where}
     if util.crows(got) != util.crows([tuple(exp_hdr)] + exp_rows):
